@@ -246,7 +246,6 @@ func FromJSON(data []byte, v interface{}) bool { return json.Unmarshal(data, v) 
 // ModelHash64 is the stand-in for highwayhash.New64(key): an injective function of short names.
 type ModelHash64 struct{ buf []byte }
 
-func ModelNewHash64(key []byte) (*ModelHash64, error) { return &ModelHash64{}, nil }
 func (m *ModelHash64) Write(p []byte) (int, error) {
 	m.buf = append(m.buf, p...)
 	return len(p), nil
@@ -268,3 +267,63 @@ func (m *ModelHash64) Sum64() uint64 {
 
 // Unsupported aborts the path as outside the encodable fragment.
 func Unsupported(why string) { panic("verifapi.Unsupported: " + why) }
+
+// All is a conjunction without short-circuit branches (one SMT term under the engine).
+func All(cs ...bool) bool {
+	for _, c := range cs {
+		if !c {
+			return false
+		}
+	}
+	return true
+}
+
+// Any is a disjunction without short-circuit branches.
+func Any(cs ...bool) bool {
+	for _, c := range cs {
+		if c {
+			return true
+		}
+	}
+	return false
+}
+
+// SameBytes compares two byte slices (length and content) as one term.
+func SameBytes(a, b []byte) bool {
+	if len(a) != len(b) {
+		return false
+	}
+	for i := range a {
+		if a[i] != b[i] {
+			return false
+		}
+	}
+	return true
+}
+
+// Ite selects without branching.
+func Ite(c bool, a, b int) int {
+	if c {
+		return a
+	}
+	return b
+}
+
+// Tier is 0 for the quick tier and 1 for the thorough tier (VERIF_TIER).
+func Tier() int {
+	if os.Getenv("VERIF_TIER") == "thorough" {
+		return 1
+	}
+	return 0
+}
+
+// Reset clears the replay cursor so that several counterexamples can be replayed in one process.
+func Reset(path string) {
+	mu.Lock()
+	defer mu.Unlock()
+	loaded = false
+	pos = 0
+	cex = cexFile{}
+	Failed = nil
+	os.Setenv("VERIF_CEX", path)
+}
